@@ -416,18 +416,19 @@ class WorkerPool:
     self.wait_until_alive()
     worker = None
     start_time = time.time()
-    while worker is None:
-      worker = self.next_idle_worker(maybe_acquire=True)
-      time.sleep(0)
-      if time.time() - start_time > 180:
-        raise ValueError('No worker is available.')
-    # Always set blocking to True as run is blocking.
-    task = Task.maybe_as_task(task).set(blocking=True)
     try:
+      while worker is None:
+        worker = self.next_idle_worker(maybe_acquire=True)
+        time.sleep(0)
+        if time.time() - start_time > 180:
+          raise ValueError('No worker is available.')
+      # Always set blocking to True as run is blocking.
+      task = Task.maybe_as_task(task).set(blocking=True)
       return worker.submit(task).result()
     finally:
-      # Also when the task raises; and also the workers that were acquired
-      # while looking for an idle one but turned out to be busy or not alive.
+      # Also when the task raises or no worker is found; and also the workers
+      # that were acquired while looking for an idle one but turned out to be
+      # busy or not alive.
       self.release_all()
 
   def iterate(
